@@ -999,7 +999,11 @@ NONTRIVIAL_LF = {"record-ends-on-1024-boundary", "cut-on-index-boundary", "file-
 def run_logfile_part(chk, cases, impl_only_cases, name, per=8):
     """harness `logfile` on all cases; oracle on all; model comparison on `cases`.
     Returns (evaluations, nontrivial set, mismatches, distribution)."""
+    import time
+    t0 = time.time()
     impl = lib.harness_run_parallel("logfile", cases + impl_only_cases)
+    chk.notes[name + "_impl_s"] = round(time.time() - t0, 1)
+    t0 = time.time()
     n_eval, nontrivial, dist = 0, set(), {}
     for c, r in zip(cases + impl_only_cases, impl):
         n_eval += 1
@@ -1019,6 +1023,7 @@ def run_logfile_part(chk, cases, impl_only_cases, name, per=8):
         chk.violation("model evaluation failed: %s" % str(ex)[:300],
                       {"broken": "model evaluation", "log": str(ex)[-3000:]}, False)
         vals = None
+    chk.notes[name + "_model_s"] = round(time.time() - t0, 1)
     if vals is not None:
         for c, r, v in zip(cases, impl, vals):
             m, ri = canon_lf_model(v), canon_lf_impl(c, r)
@@ -1032,7 +1037,11 @@ def run_logfile_part(chk, cases, impl_only_cases, name, per=8):
 
 
 def run_filestore_part(chk, cases, name, per=4):
+    import time
+    t0 = time.time()
     impl = lib.harness_run_parallel("filestore", cases, timeout=1800)
+    chk.notes[name + "_impl_s"] = round(time.time() - t0, 1)
+    t0 = time.time()
     n_eval, nontrivial, dist = 0, set(), {}
     for c, r in zip(cases, impl):
         n_eval += 1
@@ -1051,6 +1060,7 @@ def run_filestore_part(chk, cases, name, per=4):
         chk.violation("model evaluation failed: %s" % str(ex)[:300],
                       {"broken": "model evaluation", "log": str(ex)[-3000:]}, False)
         vals = None
+    chk.notes[name + "_model_s"] = round(time.time() - t0, 1)
     if vals is not None:
         for c, r, v in zip(cases, impl, vals):
             m, ri = canon_fs_model(v), canon_fs_impl(c, r)
